@@ -136,10 +136,13 @@ func isRelativeAdd(ins x86asm.Inst) bool {
 	return isAdd
 }
 
-// isRaceHook reports whether pc is the entry of one of the race detector's runtime hooks
-func isRaceHook(pc uintptr) bool {
+// isGenericBody reports whether pc is the entry of an instantiated generic function - the only thing a wrapper of
+// a generic instantiation can be forwarding to. The other calls such a wrapper may make first are not it: the race
+// detector's runtime.racefuncenter, runtime.duffcopy (entered in its middle) for a large receiver passed by value, the
+// method of an embedded non-generic type that a promoted method forwards to.
+func isGenericBody(pc uintptr) bool {
 	f := runtime.FuncForPC(pc)
-	return f != nil && f.Entry() == pc && strings.HasPrefix(f.Name(), "runtime.race")
+	return f != nil && f.Entry() == pc && strings.Contains(f.Name(), "[")
 }
 
 // GetInnerFunc Get the first real func location from wrapper
@@ -172,9 +175,9 @@ func GetInnerFunc(mode int, start uintptr) (uintptr, error) {
 			} else if curLen+int(relativeAddr) < 0 {
 				target = start + uintptr(curLen) - uintptr(-relativeAddr) + uintptr(inst.Len)
 			}
-			// in a race-instrumented binary the wrapper calls runtime.racefuncenter before the function it forwards
-			// to: that hook is not the inner function (diverting it would divert every instrumented function)
-			if target != 0 && !isRaceHook(target) {
+			// the wrapper may call other things before the function it forwards to (see isGenericBody): diverting
+			// one of those would divert it for the whole program
+			if target != 0 && isGenericBody(target) {
 				return target, nil
 			}
 		}
